@@ -16,7 +16,7 @@ DECIDES = ('Decides that in overwrite mode room is made by reclaiming published 
 RULES = {
     'R1': 'make room, then write: under OVERWRITE the allocation loops on space_free < len + K (same K as normal mode), reclaims in the loop body, gives up with NULL when reclaim fails, and writes the header only after the loop exit',
     'R2': 'the writer-side reclaim only consumes a published chunk (C01.R2 for _rb_chunk_reclaim)',
-    'R3': 'reserve >= commit: every copy of _blackbox_vlogger lies inside the reserved chunk and the committed length is at most the reserved length',
+    'R3': 'reserve >= commit: every copy of _blackbox_vlogger lies inside the reserved chunk and the committed length is at most the reserved length; the reservation itself is entailed not to exceed the longest chunk the ring holds (the value of the ring function qb_rb_chunk_alloc compares lengths with), so that a small record is never refused - and the blackbox given up - because of the room asked for a message of the full line length',
     'R4': 'writer/reader record layout agree (C15.R5)',
     'R6': 'an overwrite ring that the writer has just emptied is writable: at write_pt == read_pt the "full" verdict that depends on the wake-up count is not reachable in overwrite mode, or the writer-side reclaim takes the count of the chunk it drops back (timedwait/reclaim callback in the make-room loop)',
     'R5': 'ring index arithmetic the overwrite path relies on (= C07.R2 chunk_step: skips the header, rounds up, result in [0, word_size - 1]; C07.R6 space_free: three index cases, an empty ring offers word_size)',
@@ -131,6 +131,9 @@ def r1(ctx):
               'the chunk header is written inside the make-room loop' if lp else 'there is no make-room loop before the header store')
 
 
+RING_MEASURES = set()
+
+
 class VlogAnalysis(c14.EncAnalysis):
     """the chunk handed out by qb_rb_chunk_alloc(rb, n) is a buffer of n bytes named CHUNK"""
 
@@ -138,6 +141,10 @@ class VlogAnalysis(c14.EncAnalysis):
         if ev.kind == 'STORE' and ev.rhs is not None and callee_of(unwrap(ev.rhs)) == 'qb_rb_chunk_alloc' and unwrap(ev.lhs).get('k') == 'var':
             name = unwrap(ev.lhs)['n']
             n = self.lin(unwrap(ev.rhs)['args'][1], st)
+            # the reservation is no more than the ring can give to one chunk (RINGMAX = the value of the function of the ring that
+            # was asked for it); a request above that is refused - and the caller then gives the blackbox up
+            self.oblige(ev, 'reservation<=ring-can-give', (n - Lin.term('RINGMAX')) if n is not None else None, st,
+                        'the reserved size %s is not entailed to be <= the longest chunk the ring holds' % estr(unwrap(ev.rhs)['args'][1]))
             st.forget(name)
             st.forget('CHUNK')
             if n is not None:
@@ -156,6 +163,26 @@ class VlogAnalysis(c14.EncAnalysis):
             if n is not None:
                 st.add_le(Lin.term(name), n)       # encoder returns <= max_len (C14.R1 serialize:returns<=max_len)
             return
+        if ev.kind in ('STORE', 'DECL'):
+            rhs = ev.rhs if ev.kind == 'STORE' else ev.d.get('init')
+            r_ = unwrap(rhs) if rhs is not None else {}
+            lhs_var = ev.d['var'] if ev.kind == 'DECL' else (unwrap(ev.lhs)['n'] if unwrap(ev.lhs).get('k') == 'var' else None)
+            if lhs_var and r_.get('k') == 'call' and callee_of(r_) in RING_MEASURES:
+                st.forget(lhs_var)
+                st.forget('RINGMAX')
+                st.add_eq(Lin.term(lhs_var), Lin.term('RINGMAX'))
+                st.add_le(0, Lin.term('RINGMAX'))
+                return
+            if lhs_var and r_.get('k') == 'cond':
+                mm = self.minmax(rhs)
+                if mm and mm[0] == 'min':
+                    a_, b_ = self.lin(mm[1], st), self.lin(mm[2], st)
+                    st.forget(lhs_var)
+                    self._typefacts(st, lhs_var)
+                    for x in (a_, b_):
+                        if x is not None and lhs_var not in x.t:
+                            st.add_le(Lin.term(lhs_var), x)
+                    return
         if ev.kind == 'CALL' and ev.callee == 'qb_rb_chunk_commit':
             n = self.lin(ev.args[1], st)
             self.oblige(ev, 'commit<=reserved', (n - Lin.term('CHUNK_CAP')) if n is not None else None, st,
@@ -173,6 +200,16 @@ def r3(ctx):
     except AnalysisBroken:
         pass
     f = prog.fn('_blackbox_vlogger')
+    # functions of the ring alone that are computed from its word_size and are what qb_rb_chunk_alloc compares the length with
+    RING_MEASURES.clear()
+    c07.PROG[0] = prog
+    al = prog.fn('qb_rb_chunk_alloc')
+    for g in prog.all_fns(files={'lib/ringbuffer.c'}):
+        if len(g.params) == 1 and g.returns() and not list(g.events('STORE')) and any(c_.callee == g.name for c_ in al.events() if c_.kind == 'CALL') or \
+                (len(g.params) == 1 and any(n_.get('k') == 'call' and callee_of(n_) == g.name for b_ in al.blocks.values() for ev_ in b_.events
+                                             for n_ in walk(ev_.d.get('rhs') or ev_.d.get('e') or ev_.d.get('init') or {}))):
+            if all(r_.e is not None and any(n_.get('k') == 'mem' and n_.get('f') == 'word_size' for n_ in walk(r_.e)) for r_ in g.returns()):
+                RING_MEASURES.add(g.name)
     inv = [Lin(lo) - Lin.term(c13.MLL), Lin.term(c13.MLL) - Lin(hi)]
     an = VlogAnalysis(prog, f, {'CHUNK': Lin.term('CHUNK_CAP')}, init=inv)
     an.extra_nonneg = ('strlen',)
@@ -236,6 +273,7 @@ def r7(ctx):
     if len(rec) != 1:
         raise AnalysisBroken('qb_rb_chunk_alloc: reclaim calls=%d' % len(rec))
 
+    c07.PROG[0] = prog
     can_fit = c07.len_bounded_pred(f, lenp)
     ctx.check('R7', 'never-fitting-write-refused-before-reclaim', f.uncut_path(rec[0], can_fit) is None, rec[0],
               'old chunks are dropped only for a chunk that the empty ring could hold',
